@@ -89,7 +89,15 @@ RULE = ("tables of 0-40 entries over 3-10 active key bits embedded at random pos
         "_refine_upcheck/_refine_downcheck/_Merge.apply; thorough adds every Good table of <= 4 entries over 2 bits "
         "and <= 2 entries over 3 bits; a case "
         "is non-trivial when ordered covering applied at least one merge or default-route removal dropped an entry; "
-        "distinct = distinct canonical JSON of (table, target); deepening streams: user alias dictionaries that satisfy "
+        "distinct = distinct canonical JSON of (table, target); HISTORY stream (run first, 150/3000 histories): 2-4 "
+        "minimisation calls in one process (per call: remove_default_routes, ordered_covering, ordered_covering.minimise, "
+        "minimise_table, or minimise_tables over 2-4 chips in one call) where every later table is derived from an "
+        "earlier call's result - it contains, as original entries with a different route, key/masks produced by that "
+        "call's merges (sometimes their aliases too) plus pairs of same-route entries just outside such a key/mask whose "
+        "merge overlaps it, preferably on keys outside the earlier aliases; each call must equal the pure model on its "
+        "own table and pass the RouteEquiv oracle; a finding carries the whole history and is re-run in a fresh "
+        "interpreter (extended to all earlier histories if it is not self-contained); the main stream then runs after "
+        "the histories in the same process; deepening streams: user alias dictionaries that satisfy "
         "AliasCover by construction (own key/mask or all halves after fixing 1-2 X positions, plus extras and unused keys; "
         "the precondition is decided in Lean for every dictionary of both alias streams); 500/6000 pairs (a, b) of tables "
         "over 2-6 active bits with a shared base (a orthogonal / overlapping sorted / ill-formed; b = minimised a, "
@@ -518,9 +526,12 @@ def out_table(res):
 
 
 def eval_cases(ctx, cases):
+    hist = [c for c in cases if c["kind"] == "hist"]
     mts = [c for c in cases if c["kind"] == "mts"]
     uts = [c for c in cases if c["kind"].startswith("u_")]
-    cases = [c for c in cases if c["kind"] != "mts" and not c["kind"].startswith("u_")]
+    cases = [c for c in cases if c["kind"] not in ("mts", "hist") and not c["kind"].startswith("u_")]
+    if hist:
+        eval_hist(ctx, hist)
     _eval_plain(ctx, cases)
     if mts:
         eval_mts(ctx, mts)
@@ -528,8 +539,11 @@ def eval_cases(ctx, cases):
         eval_utils(ctx, uts)
 
 
-def _eval_plain(ctx, cases):
-    impls = [run_impl(c) for c in cases]
+def _eval_plain(ctx, cases, impls=None, ctxs=None):
+    """`impls`: results already obtained from the implementation (history stream: calls must run in order);
+    `ctxs`: per-case context (the history stream reports the whole history as the failing input)"""
+    if impls is None:
+        impls = [run_impl(c) for c in cases]
     reqs, idx = [], []
     for ci, (c, impl) in enumerate(zip(cases, impls)):
         for name, rq in model_reqs(c, impl):
@@ -549,8 +563,8 @@ def _eval_plain(ctx, cases):
     oracles = [dict() for _ in cases]
     for (ci, what, name), r in zip(idx, ctx.lean(reqs)):
         (models if what == "m" else oracles)[ci][name] = r
-    for c, impl, model, orc in zip(cases, impls, models, oracles):
-        judge(ctx, c, impl, model, orc)
+    for ci, (c, impl, model, orc) in enumerate(zip(cases, impls, models, oracles)):
+        judge(ctxs[ci] if ctxs else ctx, c, impl, model, orc)
 
 
 def judge(ctx, c, impl, model, orc):
@@ -709,17 +723,21 @@ def gen_mts(rng):
     return {"kind": "mts", "chips": chips, "mode": mode, "methods": rng.choice(METHOD_LISTS)}
 
 
-def eval_mts(ctx, cases):
+def mts_impl(c):
     from rig.routing_table import minimise as mm
-    impls = []
-    for c in cases:
-        tables = {(ch["chip"], 0): to_impl(ch["table"]) for ch in c["chips"]}
-        if c["mode"] == "dict":
-            lengths = {(ch["chip"], 0): ch["target"] for ch in c["chips"]}
-        else:
-            lengths = c["chips"][0]["target"]
-        impls.append(call(lambda: {"ok": [[k[0], from_impl(v)] for k, v in
-                                          mm.minimise_tables(tables, lengths, impl_methods(c["methods"])).items()]}))
+    tables = {(ch["chip"], 0): to_impl(ch["table"]) for ch in c["chips"]}
+    if c["mode"] == "dict":
+        lengths = {(ch["chip"], 0): ch["target"] for ch in c["chips"]}
+    else:
+        lengths = c["chips"][0]["target"]
+    return call(lambda: {"ok": [[k[0], from_impl(v)] for k, v in
+                                mm.minimise_tables(tables, lengths, impl_methods(c["methods"])).items()]})
+
+
+def eval_mts(ctx, cases, impls=None, ctxs=None):
+    if impls is None:
+        impls = [mts_impl(c) for c in cases]
+    ctx0 = ctx
     reqs, idx = [], []
     for ci, (c, impl) in enumerate(zip(cases, impls)):
         reqs.append({"suite": "c04", "op": "mts", "methods": c["methods"], "chips": c["chips"]})
@@ -736,6 +754,7 @@ def eval_mts(ctx, cases):
         else:
             orcs[(ci, chip)] = r
     for ci, (c, impl) in enumerate(zip(cases, impls)):
+        ctx = ctxs[ci] if ctxs else ctx0
         ctx.traces += 1
         ctx.tag("kind_mts")
         if models[ci] != impl:
@@ -762,6 +781,262 @@ def eval_mts(ctx, cases):
                     ctx.violation("target-missed", "minimise_tables chip %d: %d entries for target %d" % (x["chip"], len(tb), x["target"]), c)
         ctx.case({"mts": [[x["table"], x["target"]] for x in c["chips"]]}, "ok" in impl and any(
             len(dict((k, v) for k, v in impl["ok"]).get(x["chip"], [])) < len(x["table"]) for x in c["chips"]))
+
+
+# --------------------------------------------------------------------------
+# HISTORY stream: several minimisation calls in ONE process, each table derived from the previous call's result.
+# The model is a pure function, so every call must give exactly what the model gives for that table alone and must
+# satisfy the RouteEquiv oracle w.r.t. its own input; anything carried from one call to the next inside the
+# implementation (module-level caches, mutable default arguments, objects shared between results) shows up as a
+# mismatch or a route-changed violation whose failing input is the WHOLE history.
+HIST_LOG = []        # (history case, [implementation result per step]) in execution order, this process
+
+
+def step_impl(step):
+    return mts_impl(step) if step["kind"] == "mts" else run_impl(step)
+
+
+def impl_steps(steps):
+    """run the steps in order on the implementation (also the entry point of the fresh-process confirmation)"""
+    return [step_impl(s) for s in steps]
+
+
+def merges_of(step, impl):
+    """[(route, key, mask, [alias key/masks])]: entries of the call's result that are not entries of its input"""
+    out = []
+    if step["kind"] == "mts":
+        if "ok" not in impl:
+            return out
+        got = dict((k, v) for k, v in impl["ok"])
+        for ch in step["chips"]:
+            inp = {(e[1], e[2]) for e in ch["table"]}
+            out += [(e[0], e[1], e[2], []) for e in got.get(ch["chip"], []) if (e[1], e[2]) not in inp]
+        return out
+    inp = {(e[1], e[2]) for e in step["table"]}
+    r = impl.get("oc_none") or impl.get("oc_nr")
+    if r and "ok" in r:
+        al = {tuple(k): v for k, v in r["ok"]["aliases"]}
+        out += [(e[0], e[1], e[2], al.get((e[1], e[2]), [])) for e in r["ok"]["table"] if (e[1], e[2]) not in inp]
+    for nm in ("ocmin_none", "mt_default"):
+        tb = out_table(impl.get(nm, {}))
+        for e in tb or []:
+            if (e[1], e[2]) not in inp and not any(x[1:3] == (e[1], e[2]) for x in out):
+                out.append((e[0], e[1], e[2], []))
+    return out
+
+
+def derive_table(rng, merges, env):
+    """a table for the next call: original entries whose key/mask equals a key/mask PRODUCED BY A MERGE of an earlier
+    call (with a different route), sometimes that merge's aliases too, plus pairs of same-route entries just outside
+    such a key/mask whose merge overlaps it (preferably on keys that are not in the earlier aliases), plus noise"""
+    U = 1 << NONE_BIT
+    pos, routes = env["pos"], env["routes"]
+    table = []
+    for (r, k, m, al) in rng.sample(merges, min(len(merges), rng.choice([1, 1, 2]))):
+        others = [x for x in routes + [1 << rng.randrange(6), 1 << rng.randrange(6, 24)] if x != r and x != 0] or [r ^ 1 or 2]
+        r1 = rng.choice(others)
+        table.append([r1, k, m, U])
+        if al and rng.random() < 0.3:
+            a = rng.choice(al)
+            table.append([rng.choice(others), a[0], a[1], U])
+        fixed = [b for b in range(32) if (m >> b) & 1]
+        xact = [b for b in pos if not (m >> b) & 1 and not (k >> b) & 1]
+        if len(fixed) >= 2:
+            pm = m | sum(1 << b for b in xact)
+            cands = []
+            for bits in range(1 << len(xact)):
+                x = k | sum(1 << b for j, b in enumerate(xact) if (bits >> j) & 1)
+                cands.append(x)
+            free = [x for x in cands if not any(km_intersect((x, pm), (a[0], a[1])) for a in al)]
+            r2 = rng.choice([x for x in others if x != r1] or others)
+            for _ in range(rng.choice([1, 1, 2])):
+                x = rng.choice(free or cands)
+                fa = [b for b in fixed if b in pos] or fixed
+                b1 = rng.choice(fa)
+                b2 = rng.choice([b for b in fixed if b != b1])
+                table.append([r2, x ^ (1 << b1), pm, U])
+                table.append([r2, x ^ (1 << b2), pm, U])
+    table += gen_small_table(rng, pos, env["base_key"], env["base_mask"], "sorted", rng.choice([0, 0, 1, 2, 3]),
+                             routes, env["smode"], env["px"])
+    seen, out = set(), []
+    for e in table:
+        if tuple(e[:3]) not in seen:
+            seen.add(tuple(e[:3]))
+            out.append(e)
+    out.sort(key=lambda e: generality(e[1], e[2]))
+    return out
+
+
+def plain_step(rng, table):
+    light = rng.random() < 0.7
+    c = {"kind": "sorted", "table": table, "target": None if light else gen_target(rng, len(table)),
+         "target2": gen_target(rng, len(table)) if rng.random() < 0.4 else None, "methods": rng.choice(METHOD_LISTS)}
+    if light:
+        c["light"] = True
+    else:
+        c["internals"] = False
+    return c
+
+
+def gen_history(rng):
+    """generate AND run (the derivation needs the results) one history; returns (case, implementation results)"""
+    nbits = rng.choice([3, 4, 4, 5])
+    pos = sorted(rng.sample(range(32), nbits))
+    base_mask = base_key = 0
+    r = rng.random()
+    if r < 0.6:
+        base_mask = M32 & ~sum(1 << b for b in pos)
+        base_key = (rng.getrandbits(32) if rng.random() < 0.5 else 0) & base_mask
+    elif r < 0.8:
+        for b in range(32):
+            if b not in pos and rng.random() < 0.5:
+                base_mask |= 1 << b
+    env = {"pos": pos, "base_key": base_key, "base_mask": base_mask, "routes": gen_routes(rng, rng.randint(1, 3)),
+           "smode": rng.choice(["unknown", "unknown", "mix"]), "px": rng.choice([0.0, 0.1, 0.25])}
+    first = gen_small_table(rng, pos, base_key, base_mask, rng.choice(["orth", "sorted"]), rng.choice([2, 3, 4, 6, 8]),
+                            env["routes"], env["smode"], env["px"])
+    steps, impls = [plain_step(rng, first)], []
+    impls.append(step_impl(steps[0]))
+    merges = merges_of(steps[0], impls[0])
+    tables = [first]
+    for _ in range(rng.choice([1, 1, 2, 3])):
+        nxt = derive_table(rng, merges, env) if merges else gen_small_table(
+            rng, pos, base_key, base_mask, "sorted", rng.choice([2, 4, 6]), env["routes"], env["smode"], env["px"])
+        tables.append(nxt)
+        if rng.random() < 0.4:
+            # several chips in ONE minimise_tables call: earlier tables first, the derived one after them
+            chosen = rng.sample(tables[:-1], min(len(tables) - 1, rng.randint(1, 2))) + [nxt]
+            if rng.random() < 0.3:
+                chosen.append(tables[0])
+            step = {"kind": "mts", "mode": rng.choice(["none", "none", "dict"]), "methods": rng.choice(METHOD_LISTS),
+                    "chips": [{"chip": i, "table": t, "target": None} for i, t in enumerate(chosen)]}
+            if step["mode"] == "dict":
+                for ch in step["chips"]:
+                    ch["target"] = gen_target(rng, len(ch["table"]))
+        else:
+            step = plain_step(rng, nxt)
+        steps.append(step)
+        impls.append(step_impl(step))
+        merges = merges_of(step, impls[-1]) + merges[:4]
+    return {"kind": "hist", "steps": steps}, impls
+
+
+class _HistCtx(object):
+    """reports a finding of one step with the whole history as the failing input"""
+
+    def __init__(self, ctx, hist, si):
+        self._ctx, self._hist, self._si = ctx, hist, si
+
+    def _case(self):
+        c = dict(self._hist)
+        c["failed_step"] = self._si
+        return c
+
+    @property
+    def traces(self):
+        return self._ctx.traces
+
+    @traces.setter
+    def traces(self, v):
+        self._ctx.traces = v
+
+    def lean(self, reqs):
+        return self._ctx.lean(reqs)
+
+    def tag(self, *a):
+        return self._ctx.tag(*a)
+
+    def case(self, *a, **k):
+        return self._ctx.case(*a, **k)
+
+    def violation(self, key, what, case):
+        self._ctx.violation(key, "history of %d calls in one process, call %d: %s" % (
+            len(self._hist["steps"]), self._si + 1, what), self._case())
+
+    def mismatch(self, suite, detail, case):
+        self._ctx.mismatch(suite, "history call %d/%d: %s" % (self._si + 1, len(self._hist["steps"]), detail), self._case())
+
+
+def eval_hist(ctx, hists, impls=None):
+    """`impls[i]` = results of history i if it has already been run (generation); otherwise run it now, in order"""
+    if impls is None:
+        impls = [impl_steps(h["steps"]) for h in hists]
+    plain, pimpl, pctx, mts, mimpl, mctx = [], [], [], [], [], []
+    for h, im in zip(hists, impls):
+        ctx.tag("kind_hist", "hist_len_%d" % len(h["steps"]))
+        for si, (st, r) in enumerate(zip(h["steps"], im)):
+            hc = _HistCtx(ctx, h, si)
+            if st["kind"] == "mts":
+                mts.append(st), mimpl.append(r), mctx.append(hc)
+            else:
+                plain.append(st), pimpl.append(r), pctx.append(hc)
+            if si > 0 and merges_of(st, r):
+                ctx.tag("hist_derived_step_merged")
+    if plain:
+        _eval_plain(ctx, plain, pimpl, pctx)
+    if mts:
+        eval_mts(ctx, mts, mimpl, mctx)
+
+
+def fresh_impl(steps):
+    """the implementation's results for `steps` in a NEW interpreter (no state left by earlier cases)"""
+    import json
+    import subprocess
+    import sys
+    from harness import common
+    here = _os.path.dirname(_os.path.dirname(_os.path.abspath(__file__)))
+    code = ("import sys, json, warnings\nwarnings.simplefilter('ignore')\nsys.path[:0] = [%r, %r]\n"
+            "from harness import c04\nprint('\\n@@' + json.dumps(c04.impl_steps(json.load(sys.stdin))))" % (common.REPO, here))
+    p = subprocess.run([sys.executable, "-c", code], input=json.dumps(steps).encode(), stdout=subprocess.PIPE,
+                       stderr=subprocess.PIPE, timeout=900)
+    out = p.stdout.decode()
+    if p.returncode != 0 or "\n@@" not in out:
+        raise RuntimeError("fresh interpreter failed: %s" % p.stderr.decode()[-300:])
+    return json.loads(out.rsplit("\n@@", 1)[1])
+
+
+def confirm_findings(ctx):
+    """make the first finding of every class replayable in a fresh process.  A history is re-run in a new interpreter;
+    if its results differ there, state left by EARLIER histories of this run is involved and the replay is extended
+    to all histories run so far.  A single-table finding that does not reproduce in a new interpreter is re-tried
+    behind all histories of this run and, if it then reproduces, reported as that (long) history."""
+    from harness import common
+    seen, front = set(), []
+    for key, what, case in list(ctx.concrete):
+        if key in seen or len(seen) >= 4:
+            continue
+        seen.add(key)
+        try:
+            if case.get("kind") == "hist":
+                mine = [im for h, im in HIST_LOG if h["steps"] is case["steps"] or h["steps"] == case["steps"]]
+                if not mine:
+                    continue
+                if common.canon(fresh_impl(case["steps"])) == common.canon(mine[0]):
+                    ctx.tag("hist_finding_self_contained")
+                    continue
+                allsteps, upto = [], 0
+                for h, im in HIST_LOG:
+                    allsteps += h["steps"]
+                    if h["steps"] == case["steps"]:
+                        break
+                ctx.tag("hist_finding_needs_earlier_histories")
+                front.append((key, what + " [depends on state left by earlier histories of the run: the replay carries "
+                              "all of them]", {"kind": "hist", "steps": allsteps, "failed_step": len(allsteps) - 1}))
+            elif "table" in case and HIST_LOG:
+                pr = _Probe(ctx)
+                _eval_plain(pr, [case], fresh_impl([case]))
+                if any(k == key for k, _, _ in pr.concrete):
+                    continue                                  # reproduces on its own
+                steps = [st for h, _ in HIST_LOG for st in h["steps"]] + [case]
+                pr = _Probe(ctx)
+                _eval_plain(pr, [case], [fresh_impl(steps)[-1]])
+                if any(k == key for k, _, _ in pr.concrete):
+                    ctx.tag("finding_needs_history")
+                    front.append((key, what + " [only after the histories run before it in the same process: the replay "
+                                  "carries them]", {"kind": "hist", "steps": steps, "failed_step": len(steps) - 1}))
+        except Exception:
+            pass
+    ctx.concrete[:0] = front
 
 
 # --------------------------------------------------------------------------
@@ -1251,7 +1526,9 @@ def run(ctx):
                         "generality (the documented precondition); default-route removal for any table",
                         "minimise_table is called with at least one minimiser (with methods=() and len(table) == target "
                         "the front end reports failure although the table fits: _identity uses '<')",
-                        "CPython: sorted() is stable, dict/set membership semantics"]
+                        "CPython: sorted() is stable, dict/set membership semantics",
+                        "the minimisers are pure functions of their arguments: the model has no state, so calls made "
+                        "earlier in the same process must not influence a result (checked by the history stream)"]
     try:
         install_probes()
     except Exception:
@@ -1261,6 +1538,14 @@ def run(ctx):
     if ctx.extended:
         n *= 4
     rng = ctx.rng
+    # HISTORY stream first (process state is still clean, so a finding replays from its own history); the main stream
+    # below then runs thousands of unrelated tables AFTER these histories (stale state may only bite later)
+    del HIST_LOG[:]
+    nh = ctx.scale(150, 3000) * (4 if ctx.extended else 1)
+    for i in range(0, nh, 100):
+        batch = [gen_history(rng) for _ in range(min(100, nh - i))]
+        HIST_LOG.extend(batch)
+        eval_hist(ctx, [h for h, _ in batch], [im for _, im in batch])
     cases = [{"kind": "sorted", "table": [], "target": None, "target2": None, "methods": ["rd", "oc"], "internals": True},
              {"kind": "sorted", "table": [], "target": 0, "target2": 0, "methods": ["rd", "oc"], "internals": False}]
     for i in range(n):
@@ -1300,6 +1585,7 @@ def run(ctx):
     for k, v in PROBE.items():
         ctx.tags[k] = ctx.tags.get(k, 0) + v
     shrink_findings(ctx)
+    confirm_findings(ctx)
 
 
 def replay(ctx, payload):
